@@ -129,7 +129,10 @@ def do_job(job):
                 try:
                     m2 = cls()
                     m2.decode(bytearray(s))
-                    r["dec"] = get_value(m2, job["tree"])
+                    try:
+                        r["dec"] = get_value(m2, job["tree"])
+                    except BaseException as e:  # noqa
+                        r["read_exc"] = type(e).__name__      # decoded message cannot be read back
                     try:
                         r["reenc"] = list(m2.encode())
                     except BaseException as e:  # noqa
